@@ -1,6 +1,7 @@
 """C03 — no vote equivocation by a correct validator, even across crashes.
 
 Persist-before-send as a dominance fact over every path and therefore every crash point."""
+from . import common
 from engine import query as Q
 from engine.terms import show, subterms, strip, RESULT_ADAPTERS
 from engine.guards import Atom, Walker, field_path
@@ -154,8 +155,8 @@ def rule_backup_reaches_engine(ctx):
     okarg = False
     for c in calls:
         args = T.args_of(c)
-        okarg = any(a[0] == "upvar" and a[1] == "state" or (a[0] == "param") for a in args[1:]) or okarg
-        okarg = okarg or any(x == ("upvar", "state") for a in args for x in subterms(a))
+        st_names = common.pnames(f, "ReplicaState")
+        okarg = okarg or any(common.is_p(x, st_names) for a in args[1:] for x in subterms(a))
     ctx.ob(R, "state forwarded", okarg, "the state passed to the interface is the caller's state argument", f.loc())
 
 
